@@ -513,10 +513,11 @@ def handle (line : String) : String :=
         let m := chainStr chain ++ " " ++ bhex leafStr
         let d1 := if bad.isEmpty then "" else "DIFF verdicts " ++ String.intercalate ";" bad
         let goChain := (goRes.splitOn " ").headD ""
-        -- a declared label with non-ASCII bytes goes through Go's strings.ToLower (Unicode case mapping,
-        -- U+FFFD for invalid bytes), which the byte-level model does not cover: the chain is compared, the label is not
+        -- an XML label with non-ASCII bytes goes through Go's strings.ToLower (Unicode case mapping, U+FFFD for
+        -- invalid bytes), which the byte-level model does not cover: there the chain is compared, the label is not
+        -- (HTML labels are lower-cased byte-wise, text/plain has none: those are compared in full)
         let d2 := if chainStr chain == goChain then
-                    (if m == goRes || !isAsciiBytes cs then "" else s!"DIFF leaf model={m}")
+                    (if m == goRes || (!isAsciiBytes cs && (chain.head?.map (·.mime)) == some mimeTextXml) then "" else s!"DIFF leaf model={m}")
                   else s!"DIFF walk model={m} ; SPEC C03:chain-not-first-match-path"
         -- the specification oracle judges the implementation's own result
         let sp := match parseGoWalk goRes with
@@ -588,7 +589,7 @@ def handle (line : String) : String :=
             | [] => []
             | leaf :: _ => MT.withCharset leaf.mime ccs
           if mc != goChain then s!"DIFF closed-detect chain model={mc}"
-          else if !isAsciiBytes ccs then ""
+          else if !isAsciiBytes ccs && (cchain.head?.map (·.mime)) == some mimeTextXml then ""
           else if mc ++ " " ++ bhex ms == goRes then "" else s!"DIFF closed-detect string model={bhex ms}"
         -- a detector that wrote into its input (harness verdict `W`): what the following detectors see — and what
         -- the caller's buffer holds afterwards — then depends on how far the walk got
@@ -620,7 +621,7 @@ def handle (line : String) : String :=
         let dt := tagsDiff raw tg
         let mtg := HtmlTok.startTagsFull raw
         let m := bhex (Charset.fromHTML raw mtg)
-        let d := if m == goRes || !isAsciiBytes (Charset.fromHTML raw mtg) then "" else s!"DIFF cs-html model={m}"
+        let d := if m == goRes then "" else s!"DIFF cs-html model={m}"
         let all := [dt, d].filter (· != "")
         if all.isEmpty then "OK" else String.intercalate " ; " all
       | _, _ => "BAD args"
